@@ -1,4 +1,4 @@
-(* C10 - property theorems (statements only; proofs in LexerTotal.v, ExprTotal.v, PreprocTotal.v).
+(* C10 - property theorems (statements only; proofs in LexerTotal.v, ExprTotal.v, ExprGuard.v, PreprocTotal.v).
 
    C10 demands that the front end ends on every input, in time proportional to the input.  What
    can be a theorem is a statement about the MODELS of the three front-end stages (preprocessor
@@ -6,7 +6,7 @@
    never runs out, progress of every loop.  Memory safety of the C++ and the statement and
    declaration parsers are outside every theorem here (sanitizer runs in harness/props/c10.py). *)
 From Coq Require Import List Arith NArith Bool Ascii String Lia.
-From Cb Require Import C17.Model C10.Model C10.Lexer C10.ExprParse C10.LexerTotal C10.ExprTotal C10.PreprocTotal.
+From Cb Require Import C17.Model C10.Model C10.Lexer C10.ExprParse C10.LexerTotal C10.ExprTotal C10.ExprGuard C10.PreprocTotal.
 Import ListNotations.
 
 (* ------------------------------------------------------------------ lexer *)
@@ -50,13 +50,45 @@ Theorem front_end_verdict_total : forall src : Lexer.str, expr_verdict src <> VF
 Proof. exact verdict_never_fuel_l. Qed.
 Print Assumptions front_end_verdict_total.
 
-(* finding #38: the generic-call look-ahead of parsePrimary reads the rest of the file at every
-   "identifier <", so the number of tokens read is not bounded by any c * |tokens| *)
-Theorem lookahead_linear_refuted : ~ exists c, forall ts : list tok, scan_total ts <= c * List.length ts.
+(* the generic-call look-ahead of parsePrimary AS CODED since fix 98a0163 (at most 256 loop iterations per
+   "identifier <") reads at most 256 * |tokens| tokens on every token list (former finding #38 / C10-lookahead-quadratic) *)
+Theorem lookahead_linear : forall ts : list tok, scan_total_b ts <= scan_bound * List.length ts.
+Proof. exact scan_total_b_linear_l. Qed.
+Print Assumptions lookahead_linear.
+
+(* why the bound is needed: the same loop WITHOUT the iteration bound (the code before 98a0163) is not linear -
+   a change that removes the bound re-opens this *)
+Theorem lookahead_unbounded_hazard : ~ exists c, forall ts : list tok, scan_total ts <= c * List.length ts.
 Proof.
   intros [c H]. destruct (lookahead_quadratic_l c) as [ts Hts]. specialize (H ts). lia.
 Qed.
-Print Assumptions lookahead_linear_refuted.
+Print Assumptions lookahead_unbounded_hazard.
+
+(* ------------------------------------------------------------------ nesting guard (fuel = C++ stack) *)
+(* a stack budget only ever turns an answer into "too deep" (Fuel): a run that fits answers the same with any larger budget *)
+Theorem nesting_guard_monotone : forall k f (ts : list tok),
+  p_assign f ts <> Fuel -> p_assign (f + k) ts = p_assign f ts.
+Proof. exact fuel_mono_l. Qed.
+Print Assumptions nesting_guard_monotone.
+
+(* for EVERY budget the guarded parse is "too deep" or it is the parse: the guard cannot change a verdict *)
+Theorem nesting_guard_sound : forall b (ts : list tok), p_assign b ts = Fuel \/ p_assign b ts = parse ts.
+Proof. exact guard_sound_l. Qed.
+Print Assumptions nesting_guard_sound.
+
+(* each of the eight self-recursive prefix productions of parseUnary (await try checked ! - ~ & star) costs a frame per token:
+   a chain of n of them, in any mix and whatever follows, exhausts every budget <= n + 13.  The stack needed is unbounded
+   in the input on EACH branch, so the stack check has to be on the common path of parseUnary (seeded change C10-1) *)
+Theorem prefix_chain_needs_stack : forall (pre rest : list tok) f,
+  forallb is_prefix pre = true -> f <= List.length pre + 13 -> p_assign f (pre ++ rest) = Fuel.
+Proof. exact prefix_chain_deep_l. Qed.
+Print Assumptions prefix_chain_needs_stack.
+
+(* nested parentheses cost the whole ladder (K = 15 frames) per level *)
+Theorem paren_chain_needs_stack : forall n (rest : list tok) f,
+  f <= K * n -> p_assign f (repeat TLP n ++ rest) = Fuel.
+Proof. exact paren_chain_deep_l. Qed.
+Print Assumptions paren_chain_needs_stack.
 
 (* ------------------------------------------------------------------ preprocessor (model of coq/C17) *)
 (* the find-loop of expandMacros for a NON-EMPTY macro name ends within |line| - pos + 1 iterations *)
@@ -129,5 +161,12 @@ Example verdict_sample :
   map (fun s => expr_verdict (Lexer.s2l s)) ["a + b * 2"; "a +"; "a ? b : c"; "f(a, b)[3].x++"; "((a)) - 1"]%string =
   [VAccept; VReject; VAccept; VAccept; VAccept].
 Proof. vm_compute. reflexivity. Qed.
+Example verdict_prefix_keywords :
+  map (fun s => expr_verdict (Lexer.s2l s)) ["try a"; "await checked try -a"; "try"; "checked ! ~ a + try b"; "a try b"]%string =
+  [VAccept; VAccept; VReject; VAccept; VReject].
+Proof. vm_compute. reflexivity. Qed.
+Example prefix_chain_hypothesis_satisfiable :
+  forallb is_prefix [TKw KTry; TKw KChecked; TKw KAwait; TNot; TOp Sub; TTilde; TOp BAnd; TOp Mul] = true.
+Proof. reflexivity. Qed.
 Example chain_is_accepted : exists e, parse (chain 5 ++ [TRP; TSemi]) = Ok (e, [TRP; TSemi]).
 Proof. apply chain_parses. lia. Qed.
